@@ -1271,6 +1271,12 @@ class FnTr:
         if op == 'icmp':
             pred = p.next()[1]; t = p.type(); a = parse_value(p, t); p.expect(','); b = parse_value(p, t)
             d = s.setv(dest, TInt(1))
+            if PTRCMP and isinstance(E.resolve(t), TPtr) and pred in ('eq', 'ne'):
+                def smallnz(v): return v.kind == 'cexpr' and v.op == 'inttoptr' and v.ops[0].kind == 'int' and 0 < v.ops[0].val < 4096
+                if smallnz(b) or smallnz(a):
+                    pv, cv = (a, b) if smallnz(b) else (b, a)
+                    emit('%s = (u8)%sVP_PTR_EQ_C(%s, %dull);' % (d, '!' if pred == 'ne' else '', E.val(pv), cv.ops[0].val))
+                    return
             if PTRCMP and isinstance(E.resolve(t), TPtr) and pred in ('ugt', 'uge', 'ult', 'ule'):
                 # --ptrcmp: ordering comparison of a pointer with a small integer constant cast to a pointer (`uintptr_t(p) > 63`):
                 # emitted via VP_PTR_<pred>_C (PRELUDE), which states cbmc's own pointer encoding (object number in the top bits) in a
@@ -1605,15 +1611,19 @@ static inline u64 vp_sb_load(struct vp_sb* b, void* a, u8 sz){ for(unsigned i=SB
 #define SB_LOAD(p,sz) vp_sb_load(SB,(void*)(p),(sz))
 #define SB_FLUSH_ALL() vp_sb_flush(SB,SBD)
 #ifdef __CPROVER__
-#define VP_PTR_UGT_C(p,c) (__CPROVER_POINTER_OBJECT(p) != 0 || (u64)__CPROVER_POINTER_OFFSET(p) > (u64)(c))
-#define VP_PTR_UGE_C(p,c) (__CPROVER_POINTER_OBJECT(p) != 0 || (u64)__CPROVER_POINTER_OFFSET(p) >= (u64)(c))
-#define VP_PTR_ULT_C(p,c) (__CPROVER_POINTER_OBJECT(p) == 0 && (u64)__CPROVER_POINTER_OFFSET(p) < (u64)(c))
-#define VP_PTR_ULE_C(p,c) (__CPROVER_POINTER_OBJECT(p) == 0 && (u64)__CPROVER_POINTER_OFFSET(p) <= (u64)(c))
+/* exact in cbmc's pointer encoding (object number in the top bits, offset in the low bits; c is a small constant), written so that
+   symex folds them for p = NULL, p = (T*)small and p = &object (base address): an offset-0 pointer is > c iff it is not NULL */
+#define VP_PTR_UGT_C(p,c) (__CPROVER_POINTER_OFFSET(p) == 0 ? ((p) != 0) : ((u64)(p) > (u64)(c)))
+#define VP_PTR_UGE_C(p,c) (__CPROVER_POINTER_OFFSET(p) == 0 ? ((p) != 0 || (c) == 0) : ((u64)(p) >= (u64)(c)))
+#define VP_PTR_ULT_C(p,c) (!VP_PTR_UGE_C(p,c))
+#define VP_PTR_ULE_C(p,c) (!VP_PTR_UGT_C(p,c))
+#define VP_PTR_EQ_C(p,c) (__CPROVER_POINTER_OFFSET(p) == (c) && (u64)(p) == (u64)(c))
 #else
 #define VP_PTR_UGT_C(p,c) ((u64)(p) > (u64)(c))
 #define VP_PTR_UGE_C(p,c) ((u64)(p) >= (u64)(c))
 #define VP_PTR_ULT_C(p,c) ((u64)(p) < (u64)(c))
 #define VP_PTR_ULE_C(p,c) ((u64)(p) <= (u64)(c))
+#define VP_PTR_EQ_C(p,c) ((u64)(p) == (u64)(c))
 #endif
 static inline u32 vp_bsr(u32 x){ return x ? 31u - (u32)__builtin_clz(x) : 0u; }
 static inline u64 vp_ctlz64(u64 x){ return x ? (u64)__builtin_clzll(x) : 64u; }
